@@ -57,12 +57,22 @@ def make_gen(env, spec):
     return g, gen_point(env, g)
 
 
-gen_spec = st.one_of(
-    st.just({"kind": "h"}), st.just({"kind": "h"}),
-    st.builds(lambda s: {"kind": "seed", "seed": s}, gens.hexbytes(32)),
-    st.builds(lambda s, r: {"kind": "blinded", "seed": s, "r": r}, gens.hexbytes(32), gens.seckey_valid),
-    st.builds(lambda k: {"kind": "parse", "k": k}, gens.seckey_valid),
-)
+def weighted(draw, choices):
+    """draw from [(weight, strategy), ...] with the stated integer weights (st.one_of de-duplicates repeated identical strategies, so repetition is no weight)"""
+    idx = draw(st.sampled_from([i for i, (w, _) in enumerate(choices) for _ in range(w)]))
+    return draw(choices[idx][1])
+
+
+@st.composite
+def _gen_spec(draw):
+    return weighted(draw, [
+        (2, st.just({"kind": "h"})),
+        (1, st.builds(lambda s: {"kind": "seed", "seed": s}, gens.hexbytes(32))),
+        (1, st.builds(lambda s, r: {"kind": "blinded", "seed": s, "r": r}, gens.hexbytes(32), gens.seckey_valid)),
+        (1, st.builds(lambda k: {"kind": "parse", "k": k}, gens.seckey_valid))])
+
+
+gen_spec = _gen_spec()
 
 
 def commit(env, blind, value, g):
